@@ -1,17 +1,15 @@
 import RaftLogModel.Props.C09
 open RaftLog
-#print axioms uncrcBit_crcBit
-#print axioms crcBit_uncrcBit
-#print axioms crcBit_injective
-#print axioms crcByte_injective_left
-#print axioms crcByte_injective_right
-#print axioms crc32_single_byte
-#print axioms c09_crcBit_bijective
-#print axioms c09_crcByte_injective
-#print axioms c09_crc32_single_byte
-#print axioms c09_body_byte_detected
-#print axioms c09_mutated_shape
-#print axioms c09_body_byte_decode_rejected
-#print axioms c09_body_byte_decode_extent
-#print axioms c09_sum_bytes_detected
-#print axioms c09_crc32_check_value
+#print axioms c09_checksum_mismatch_invalid
+#print axioms c09_invalid_reported
+#print axioms c09_wrong_sum_is_invalid
+#print axioms c09_wrong_sum_chunk
+#print axioms mutated_length
+#print axioms c09_chunk_byte_altered
+#print axioms c09_chunk_byte_altered_not_original
+#print axioms c09_missing_middle_chunk
+#print axioms c09_missing_middle_chunk_two
+#print axioms c09_open_gap
+#print axioms decRecord_bad_sum
+#print axioms openLoop_gap
+#print axioms openLoop_clean_step
